@@ -170,7 +170,34 @@ def lost_on_panic_oracle(ops, text):
         destroyed = set(e.split()[1] for e in op.events if e.startswith("D "))
         lost = before - after - destroyed
         if lost:
-            out.append(("lost-on-panic", i, "`%s` panicked (nothing was injected) and elements %s are neither exposed by a register any more nor destroyed" % (op.line, sorted(lost, key=int))))
+            out.append(("lost-on-panic", i, "`%s` panicked (nothing was injected) and elements %s are neither exposed by a register any more nor destroyed" % (op.line, sorted(lost, key=lambda x: (not x.isdigit(), int(x) if x.isdigit() else 0, x)))))
+    return out
+
+def destroyed_exposed_oracle(ops, text):
+    """exactly-once ownership judged on the implementation's own trace, panics or not: an element whose destructor has
+    run (`D id`) is not an element of any vector afterwards, and no destructor runs twice. Element ids are never reused
+    within a case; classes without per-element identity (`p4`, `p1`: plain data, ids repeat by construction) are skipped."""
+    out = []
+    if any(l.startswith("!cfg p") for l in text.split("\n")):
+        return out
+    dead = {}
+    for i, op in enumerate(ops):
+        for e in op.events:
+            if e.startswith("D "):
+                x = e.split()[1]
+                if not x.isdigit():
+                    continue
+                if x in dead:
+                    out.append(("destroyed-twice", i, "`%s`: the destructor of element %s runs a second time (first during `%s`)" % (op.line, x, ops[dead[x]].line)))
+                    return out
+                dead[x] = i
+        for reg, st in op.S.items():
+            for it in st[2]:
+                x = it.split(":")[0]
+                if x in dead:
+                    out.append(("destroyed-exposed", i, "after `%s` (%s) register %s holds element %s, whose destructor already ran during `%s`: %s" % (
+                        op.line, op.result, reg, x, ops[dead[x]].line, st[2])))
+                    return out
     return out
 
 def iter_drop_oracle(ops, mops):
@@ -707,7 +734,32 @@ def iter_drop_panic_cases(mode):
                 for kk in range(1, 7):
                     out.append(G.case("idp-%s-%s-%d-p%d" % (cls, label, k, kk), cls, mode, pre + list(seq) + ["push v0 77", "pop v0"], ["!panic_at %d" % kk]))
                 k += 1
+        # a tail behind the range and several elements still pending behind the one whose destructor panics
+        long = ["macro_list v0 1 2 3 4 5 6 7 8 9"]
+        for seq in (["drain v0 I1 E4 it", "drop it"], ["drain v0 I1 E5 it", "next it", "drop it"], ["drain v0 I2 E7 it", "next_back it", "drop it"],
+                    ["drain_filter v0 seqFTTTFTTF it", "drop it"], ["drain_filter v0 seqTTFTTFTT it", "next it", "drop it"],
+                    ["splice v0 I1 E5 it[7] it", "drop it"], ["splice v0 I1 E5 it[7,8,9,10,11,12] it", "next it", "drop it"],
+                    ["into_iter v0 it", "next it", "next_back it", "drop it"]):
+            for kk in range(1, 8):
+                out.append(G.case("idpL-%s-%d-p%d" % (cls, k, kk), cls, mode, long + list(seq) + ["push v0 77", "pop v0"], ["!panic_at %d" % kk]))
+            k += 1
     return out
+
+def serde_many_cases(mode):
+    """more elements than the 1024 the deserializer reserves up front, announced truthfully, short or absurdly"""
+    M = (1 << 64) - 1
+    out = []
+    k = 0
+    for n in (1025, 1100, 2049):
+        many = ",".join(str(i % 7) for i in range(n))
+        for cls in ("w4", "s16"):
+            for h in (str(n), str(n - 1), "1024", "1025", "2000", str(1 << 40), str(M), "N"):
+                out.append(G.case("sdM-%s-%d" % (cls, k), cls, mode, ["deserialize v0 %s sq[%s]" % (h, many), "push v0 5", "pop v0"])); k += 1
+    return out
+
+def from_str_cases(mode):
+    """From<&str> for MiniVec<u8>, the empty string included (the vector it builds never allocates)"""
+    return [G.case("fstr-%d" % n, "b1", mode, ["from_str %d" % n, "new v0", "push v0 1"]) for n in (0, 1, 3, 64, 4096)]
 
 def raw_natural_cases(mode):
     """raw-parts round trips of buffers with the element type's natural alignment (the over-aligned ones are C14's)"""
@@ -961,15 +1013,15 @@ def general(tier, seed, pid, modes=("debug",)):
 
 PROPS = {
     "C01": {"modules": ["MiniVecProof.Props.C10Provided", "MiniVecProof.Props.C01", "MiniVecProof.Props.C01Histories", "MiniVecProof.Props.C01Loops", "MiniVecProof.Props.C01Ctors", "MiniVecProof.Props.C01Append", "MiniVecProof.Props.C01SplitOff", "MiniVecProof.Props.C01MacroRepeat", "MiniVecProof.Props.C01ExtendWithin", "MiniVecProof.Props.C17RemoveItem", "MiniVecProof.Props.C12CloneFrom", "MiniVecProof.Props.C12IntoIter", "MiniVecProof.Props.C10DrainFilter", "MiniVecProof.Props.C10Splice", "MiniVecProof.Props.C10World"],
-            "cases": lambda tier, seed: [(m, c + views_cases(m) + panic_prefix_cases(m) + clone_glue_cases(m) + lying_hint_cases(m)) for m, c in general(tier, seed, "C01")] + [("release", boundary_grid("release") + views_cases("release"))],
+            "cases": lambda tier, seed: [(m, c + views_cases(m) + panic_prefix_cases(m) + clone_glue_cases(m) + lying_hint_cases(m) + from_str_cases(m)) for m, c in general(tier, seed, "C01")] + [("release", boundary_grid("release") + views_cases("release"))],
             "owned_oracles": ["O vec-mismatch", "O view-mismatch", "O ledger duplicate-id", "O ledger bitwise-copy", "panic-prefix", "macro-evals", "X signal"], "owned_diffs": ["result", "contents", "panic", "crash"],
             "partial_missing": ["refinement to Vec semantics proved for every history over push, pop, insert, remove, swap_remove, truncate, clear, retain (any predicate), reserve, reserve_exact, shrink_to, shrink_to_fit (C01_refines_vec_partial); separately proved value-for-value: extend_from_slice, resize, resize_with (any generator) (C01Loops), From<&[T]> (C01_from_slice_partial), clone, extend/collect, dedup*, Drain, IntoIter, DrainFilter (any predicate); append, split_off, drain_vec, mini_vec![a, b, c], splice (any replacement iterator), extend_from_within, remove_item (any equality), mini_vec![e; n], clone_from; C01_histories_partial composes them over EVERY history of 25 operation kinds incl. the three borrowing iterators created, stepped and dropped; From<&str>, Cow, the Borrow/AsRef/Deref/Index views are tied to Vec and to the model by the correspondence only (views oracle)"]},
     "C02": {"modules": ["MiniVecProof.Props.C10Provided", "MiniVecProof.Props.C02", "MiniVecProof.Props.C02Histories", "MiniVecProof.Props.C02All", "MiniVecProof.Props.C02Splice", "MiniVecProof.Props.C10", "MiniVecProof.Props.C10IntoIter", "MiniVecProof.Props.C10DrainFilter"],
             "cases": lambda tier, seed: [(m, c + raw_natural_cases(m) + serde_error_cases(m) + (serde_cases(tier, seed, m) + panic_sweep(tier, seed, m) if m == "debug" else [])) for m, c in general(tier, seed, "C02")],
-            "owned_oracles": ["O ledger", "O view-mismatch", "X signal", "lost-on-panic"], "owned_diffs": ["own", "crash"],
+            "owned_oracles": ["O ledger", "O view-mismatch", "X signal", "lost-on-panic", "destroyed-exposed", "destroyed-twice"], "owned_diffs": ["own", "crash"],
             "partial_missing": ["exactly-once destruction and conservation proved for every completed history over the 12 operations of POp (incl. retain with any predicate) followed by Drop (C02_exactly_once_partial, C02_no_double_drop, C02_no_leak); for Drain and IntoIter dropped after any interleaving of steps: yielded front ++ destroyed ++ yielded back reversed = the selected range (specSteps_partition + C10_drain_partial / C10_into_iter_partial); DrainFilter: yielded ++ destroyed = accepted, vector = rejected (C10_drain_filter_partial); C02_histories_partial / C02_histories_into_iter_partial: EVERY completed history over the base operations, extend (any source), dedup / dedup_by / dedup_by_key (any relation), drain(range) with any steps then drop, drain_filter(pred) with any steps then drop, ended by dropping the vector or by into_iter() with any steps then drop: one destructor event per element of `dropped`, and dropped ++ everything yielded or returned is a rearrangement of the starting contents ++ everything handed in; C02_every_history_partial (Props/C02All, C02Splice): the same for EVERY completed history over all 25 operation kinds of HOp, by destructor events: the cloning operations (extend_from_slice, resize, extend_from_within: the clones are new elements handed to the vector), resize_with, remove_item and splice (create, any steps, drop: exactly the unyielded part of the range is destroyed; the temporary that collects the rest of the replacement is emptied before it is dropped) included; the multi-register operations and serde by correspondence + per-element ledger"]},
     "C03": {"modules": ["MiniVecProof.Props.C01", "MiniVecProof.Proofs.MemDrop", "MiniVecProof.Props.C09", "MiniVecProof.Props.C03World", "MiniVecProof.Props.C10World"],
-            "cases": lambda tier, seed: [(m, c + huge_cases(m) + raw_natural_cases(m) + extend_ref_cases(m) + lying_hint_cases(m) + grow_with_tail_cases(m) + mixed_alignment_cases(m) + hostile_cases(tier, seed, m)) for m, c in general(tier, seed, "C03", modes=("debug", "release"))],
+            "cases": lambda tier, seed: [(m, c + huge_cases(m) + raw_natural_cases(m) + from_str_cases(m) + extend_ref_cases(m) + lying_hint_cases(m) + grow_with_tail_cases(m) + mixed_alignment_cases(m) + hostile_cases(tier, seed, m)) for m, c in general(tier, seed, "C03", modes=("debug", "release"))],
             "owned_oracles": ["O alloc", "O cap", "X signal"], "owned_diffs": ["alloc", "ub", "crash"],
             "partial_missing": ["layout quoting proved for grow (every caller), Drop and IntoIter::drop; C03_world_all_histories: for EVERY finite sequence of protocol operations of the register machine on any number of registers (every constructor of Op: all four iterators alive across other operations, two-vector operations, serde, raw round trips, spare capacity, count) every register stays well formed and no step is an illegal access, a failed assertion or a hang (non-panicking callbacks); the theorem is about the model, tied to the code by the correspondence + checking allocator"]},
     "C04": {"modules": ["MiniVecProof.Props.C10Provided", "MiniVecProof.Props.C04", "MiniVecProof.Props.C04Drain", "MiniVecProof.Props.C04IntoIter", "MiniVecProof.Props.C04DrainFilter", "MiniVecProof.Props.C04Loops", "MiniVecProof.Props.C04Dedup", "MiniVecProof.Props.C04MacroRepeat", "MiniVecProof.Props.C04Splice", "MiniVecProof.Props.C04Histories", "MiniVecProof.Props.C04Serde", "MiniVecProof.Props.C04World", "MiniVecProof.Props.C01"],
@@ -985,8 +1037,8 @@ PROPS = {
             "cases": lambda tier, seed: [("debug", corpus("debug", "C06") + sentinel_sweep("debug") + soak(tier, seed, "debug", "C06", n=4000)), ("release", corpus("release", "C06") + sentinel_sweep("release"))],
             "owned_oracles": ["X signal", "O ledger", "O alloc", "O vec-mismatch", "O view-mismatch", "O cmp-slice-mismatch", "sentinel-noalloc", "rejected-unchanged"], "owned_diffs": ["result", "contents", "panic", "alloc", "own", "ub", "crash", "cap"]},
     "C07": {"modules": ["MiniVecProof.Props.C07", "MiniVecProof.Props.C07Stable", "MiniVecProof.Props.C01"],
-            "cases": lambda tier, seed: [(m, c + growth_cases(m) + fit_cases(m) + huge_cases(m) + refused_resize_cases(m)) for m, c in general(tier, seed, "C07", modes=("debug", "release"))],
-            "owned_oracles": ["O cap", "reserve-contract", "stable", "log-resizes"], "owned_diffs": ["cap", "alloc"],
+            "cases": lambda tier, seed: [(m, c + growth_cases(m) + fit_cases(m) + huge_cases(m) + refused_resize_cases(m) + serde_many_cases(m)) for m, c in general(tier, seed, "C07", modes=("debug", "release"))],
+            "owned_oracles": ["O cap", "reserve-contract", "stable", "log-resizes", "X signal"], "owned_diffs": ["cap", "alloc"],
             "partial_missing": ["stability clause proved (Props/C07Stable: same block identity, same layout, same capacity and alignment, no allocator request, no allocator event) for push, insert, extend (ANY source iterator: only what it yields counts, never its size_hint), extend_from_slice, resize, resize_with (any generator), append (destination empty or not, source roomier or not) whenever the result fits, and for pop, remove, swap_remove, truncate, clear; retain / dedup* / drain / drain_filter keep capacity and block identity in the C17 / C10 theorems; spare_capacity_mut / split_at_spare_mut exact (C07_spare_exact, C07_fill_spare); extend_from_within, splice and clone_from that fit: correspondence + the stability oracle on every adding operation at every fill level (fit_cases)"]},
     "C08": {"modules": ["MiniVecProof.Props.C08"],
             "cases": lambda tier, seed: [("debug", corpus("debug", "C08") + align_cases(tier, seed, "debug")), ("release", align_cases(tier, seed, "release"))],
@@ -1001,13 +1053,13 @@ PROPS = {
     "C10": {"modules": ["MiniVecProof.Props.C10Provided", "MiniVecProof.Props.C10", "MiniVecProof.Props.C10IntoIter", "MiniVecProof.Props.C10DrainFilter", "MiniVecProof.Props.C10Splice", "MiniVecProof.Props.C10World", "MiniVecProof.Props.C06"],
             "cases": lambda tier, seed: [("debug", corpus("debug", "C10") + iterator_cases(tier, seed, "debug") + lying_hint_cases("debug") + iter_drop_panic_cases("debug") + soak(tier, seed, "debug", "C10", n=12000)),
                                          ("release", boundary_grid("release"))],
-            "owned_oracles": ["O vec-mismatch", "O view-mismatch", "iter-drop-outcome", "X signal"], "owned_diffs": ["result", "contents", "ub", "crash", "panic"],
+            "owned_oracles": ["O vec-mismatch", "O view-mismatch", "iter-drop-outcome", "destroyed-exposed", "destroyed-twice", "X signal"], "owned_diffs": ["result", "contents", "ub", "crash", "panic"],
             "partial_missing": ["proved for Drain on every storage state (C10_drain_partial): every interleaving of front/back steps yields what the list iterator over es[st..en] yields, exact counts, None for ever after the ends meet, vector untouched by steps, and drop leaves prefix ++ suffix destroying exactly the unyielded elements; proved for IntoIter on every storage state (C10_into_iter_partial): same protocol, exact len(), as_slice() = unyielded elements, drop destroys exactly those and frees the block with its layout; proved for DrainFilter with ANY predicate (C10_drain_filter_partial, C10_drain_filter_default): any number of next() calls yields the accepted elements in order, drop leaves exactly the rejected ones; proved for Splice with ANY replacement iterator (C10_splice_partial, C10_splice_default): steps are those of its embedded Drain, drop leaves prefix ++ (items before the first None) ++ suffix through every path of the drop guard (gap closed, tail moved up after growing); remaining: yielded sequences and counts checked against std's iterators and the model by correspondence only"]},
     "C11": {
         "modules": ["MiniVecProof.Props.C11"],
         "cases": lambda tier, seed: [("debug", corpus("debug", "C11") + argument_grid("debug")), ("release", argument_grid("release"))] if tier == "thorough"
                  else [("debug", corpus("debug", "C11") + argument_grid("debug")), ("release", boundary_grid("release"))],
-        "owned_oracles": ["accept-predicate", "rejected-unchanged", "lost-on-panic", "X signal"],
+        "owned_oracles": ["accept-predicate", "rejected-unchanged", "lost-on-panic", "X signal", r"re:O vec-mismatch \S+ result "],
         "owned_diffs": ["panic", "result"],
     },
     "C12": {"modules": ["MiniVecProof.Props.C10Provided", "MiniVecProof.Props.C12", "MiniVecProof.Props.C04Loops", "MiniVecProof.Props.C12IntoIter", "MiniVecProof.Props.C12CloneFrom"],
@@ -1037,6 +1089,9 @@ import special as S
 for _p in ("C01", "C02", "C04", "C17"):
     PROPS[_p]["special"] = S.mutcb
 PROPS["C18"]["special"] = S.oom_unwind
+PROPS["C01"]["special"] = S.both(S.mutcb, S.shifty)
+for _p in ("C07", "C11"):
+    PROPS[_p]["special"] = S.shifty
 PROPS["C13"] = {"modules": ["MiniVecProof.Props.C13"], "special": S.c13,
                 "partial_missing": ["rustc's layout algorithm is modelled (sum of field sizes rounded to the largest alignment, niche if a field has one), not verified; validated by compile-time assertions over a family of element types"]}
 PROPS["C15"] = {"modules": ["MiniVecProof.Props.C15"], "special": S.c15,
@@ -1125,13 +1180,13 @@ def correspondence(pid, tier, seed, model_ok=True):
             found = []
             for i, op in enumerate(ops):
                 for o in op.O + op.X + (["= " + op.result] if op.result in ("hang",) else []):
-                    if any(o.startswith(p) for p in P.get("owned_oracles", [])):
+                    if any((re.match(p[3:], o) is not None) if p.startswith("re:") else o.startswith(p) for p in P.get("owned_oracles", [])):
                         if o.startswith("X signal 6") and ("allocfail" in o or ((op.result or "").startswith("abort-other") and "!panic_at" in text)):
                             continue      # the documented abort paths: allocation failure; a panic while unwinding (only with an injected panic)
                         found.append((o.split()[1] if o.startswith("O ") else o.split()[0] + "-" + "-".join(o.split()[1:3]), i, o))
                     elif o.startswith("O "):
                         other_oracles[" ".join(o.split()[:2])] += 1
-            for kind, i, textv in T.orchestrator_oracles(ops, SIZES.get(cls, 4), {"a32": 32, "a16": 16}.get(cls, 8)) + panic_prefix_oracle(ops, text) + hint_panic_oracle(ops, text) + lost_on_panic_oracle(ops, text) + iter_drop_oracle(ops, T.parse(m) if m else []):
+            for kind, i, textv in T.orchestrator_oracles(ops, SIZES.get(cls, 4), {"a32": 32, "a16": 16}.get(cls, 8)) + panic_prefix_oracle(ops, text) + hint_panic_oracle(ops, text) + lost_on_panic_oracle(ops, text) + destroyed_exposed_oracle(ops, text) + iter_drop_oracle(ops, T.parse(m) if m else []):
                 if kind in P.get("owned_oracles", []):
                     found.append((kind, i, textv))
                 else:
